@@ -713,7 +713,7 @@ def run_case(case):
               gis.remove(gi)
               jscale = 100 if not is_eq else 10
               rok &= "ok" == judge(rec, "efc.J", G["J"][gi], R["J"][ri], 1e-4, jscale * nzJ, suffix=rowcls(key), ctx=f"{ctx} row {ri} key {key}")
-              rok &= "ok" == judge(rec, "efc.pos", G["pos"][gi], R["pos"][ri], 1e-5, 10 * nzJ, suffix=rowcls(key), ctx=f"{ctx} row {ri} key {key}")
+              rok &= "ok" == judge(rec, "efc.pos", G["pos"][gi], R["pos"][ri], 1e-5, 10 * nzJ, suffix=rowcls(key) + (":flex-gap" if (any_gap and isinstance(key[1], tuple)) else ""), ctx=f"{ctx} row {ri} key {key}")
               rok &= "ok" == judge(rec, "efc.D", G["D"][gi] / max(1.0, abs(R["D"][ri])), R["D"][ri] / max(1.0, abs(R["D"][ri])), 1e-4, 0, suffix=rowcls(key), ctx=f"{ctx} row {ri} key {key}")
     if rows_match and not rok:
       rows_match = False
